@@ -34,12 +34,14 @@ def write_risk_csv(path, tokens, risk, decimals):
     lines = [CSV_HEADER]
     for i, t in enumerate(tokens):
         r = risk[t]
-        name = "USD Coin" if t == "USDC" else t  # the loader renames USDC rows whose name is not 'USD Coin' to USDC.E
+        # both USD coins are listed under the symbol USDC; the loader tells them apart by the reserve name
+        name = "USD Coin" if t == "USDC" else ("USD Coin (PoS)" if t == "USDC.E" else t)
+        sym = "USDC" if t == "USDC.E" else t
         lines.append(
             ",".join(
                 str(x)
                 for x in (
-                    "0x%040x" % (i + 1), name, t, decimals.get(t, 18), int(r["ltv"]), int(r["lt"]), int(r["bonus"]), 1000,
+                    "0x%040x" % (i + 1), name, sym, decimals.get(t, 18), int(r["ltv"]), int(r["lt"]), int(r["bonus"]), 1000,
                     bool(r["collateral"]), bool(r["borrow"]), True, False, 40000000000000000000000000,
                     800000000000000000000000000, 0, 900000000000000000000000000, True, 1000000, 2000000, bool(r["borrow"]),
                 )
@@ -410,8 +412,9 @@ def _wallet_drain(sim, m, a):
 
 
 # ------------------------------------------------------------------------------------------------- generation
-TOKENS = (("WETH", 18), ("USDC", 6), ("WBTC", 8), ("DAI", 18), ("USDT", 6), ("LINK", 18), ("WMATIC", 18))
-BASE_PRICE = {"WETH": 1800.0, "USDC": 1.0, "WBTC": 29000.0, "DAI": 0.999, "USDT": 1.001, "LINK": 7.3, "WMATIC": 0.57}
+# USDC.E: the bridged coin, listed in the risk-parameter file under the symbol USDC too (told apart by its name)
+TOKENS = (("WETH", 18), ("USDC", 6), ("WBTC", 8), ("DAI", 18), ("USDT", 6), ("LINK", 18), ("WMATIC", 18), ("USDC.E", 6))
+BASE_PRICE = {"WETH": 1800.0, "USDC": 1.0, "WBTC": 29000.0, "DAI": 0.999, "USDT": 1.001, "LINK": 7.3, "WMATIC": 0.57, "USDC.E": 1.0002}
 
 
 def dstr(x, places=27) -> str:
